@@ -1395,7 +1395,7 @@ func (c *Ctx) ownSites(u FuncUnit) []ownSite {
 						if isCellSlice(arg) {
 							p := a.sliceProvOf(arg, 0)
 							if p.borrowed || p.unknown {
-								construct := ord.next(fn.Name() + " over " + exprShape(info, arg))
+								construct := ord.next(shortName(fn) + " over " + exprShape(info, arg))
 								v, d := a.viewVerdict(fc, u, s, arg, p, st, ownerOK)
 								sites = append(sites, ownSite{"MUT.view", construct, s, v, d, arg})
 							}
@@ -1449,7 +1449,7 @@ func (c *Ctx) ownSites(u FuncUnit) []ownSite {
 					}
 					switch fn.Name() {
 					case "Sort", "Stable", "Slice", "SliceStable", "SortFunc", "SortStableFunc", "Reverse":
-						construct := ord.next(fn.Pkg().Name() + "." + fn.Name() + " over " + exprShape(info, sl))
+						construct := ord.next(fn.Pkg().Name() + "." + shortName(fn) + " over " + exprShape(info, sl))
 						if ok, why := sliceOK(sl, s, st, false); ok {
 							sites = append(sites, ownSite{"MUT.elem", construct, s, Proved, why, nil})
 						} else {
